@@ -354,3 +354,12 @@ def r8(ctx: Ctx) -> None:
     from . import C18 as _c18
     from .common import support
     support(ctx, [_c18.r1, _c18.r2, _c18.r3, _c18.r4, _c18.r6], {"Rectangle.area_overlap", "Rectangle.area", "Rectangle.bounding_box"})
+
+
+@rule("C03", "R9.refined-die-complete", "SHARED(C11)",
+      "the cells of a refined die are all the pieces of its regions: split_rectangles loses none (both halves of every split reach a "
+      "work list, every queued rectangle is drained before the result is returned) -- the C11 rules evaluated for the halving driver", floor=4)
+def shared_split_rectangles(ctx: Ctx) -> None:
+    from . import C11 as _c11
+    from .common import support
+    support(ctx, [_c11.r2, _c11.r3], {"split_rectangles"})
